@@ -556,3 +556,183 @@ class FlowGen:
                 stmts += self.stmt({}, 0, False, ch.int(3, 6))
         stmts.append(("expr", ("var", "trace")))
         return stmts
+
+
+# ------------------------------------------------------------------ C05
+
+ERR_VALUES = [
+    ("null",), ("bool", True), ("bool", False), ("int", 1), ("dec", 1.0),
+    ("int", 2), ("str", "a"), ("str", "ERROR"), ("str", "b"),
+    ("list", [("int", 1), ("int", 2)]), ("list", [("dec", 1.0), ("int", 2)]),
+    ("set", [("int", 1), ("int", 2)]), ("set", [("int", 2), ("int", 1)]),
+    ("map", [(("str", "k"), ("int", 1))]), ("int", 0), ("list", []),
+]
+
+
+class ErrGen:
+    """Nests of do/catch/finally inside functions and loops with errors
+    injected at every statement position."""
+
+    def __init__(self, ch, max_depth=4):
+        self.ch = ch
+        self.max_depth = max_depth
+        self.tags = 0
+        self.n = 0
+        self.features = set()
+
+    def tag(self):
+        self.tags += 1
+        return self.tags
+
+    def fresh(self, p):
+        self.n += 1
+        return f"{p}{self.n}"
+
+    def errval(self):
+        return self.ch.choice(ERR_VALUES)
+
+    def raiser(self):
+        """A statement that fails."""
+        ch = self.ch
+        k = ch.weighted([(5, "error"), (2, "thrower"), (2, "undefined"),
+                         (2, "div0"), (1, "badcall"), (1, "index")])
+        if k == "error":
+            return ("error", self.errval())
+        if k == "thrower":
+            self.features.add("raised-in-callee")
+            return ("expr", call("thrower", self.errval()))
+        self.features.add("runtime-ERROR")
+        if k == "undefined":
+            return ("expr", ("var", "undefined_zz"))
+        if k == "div0":
+            return ("expr", ("bin", "/", ("int", 1), ("int", 0)))
+        if k == "badcall":
+            return ("expr", ("call", ("int", 5), []))
+        return ("expr", ("index", ("list", [("int", 1)]), ("int", 7)))
+
+    def simple(self):
+        return tag_log(self.tag())
+
+    def exit_stmt(self, in_loop, in_fn):
+        opts = []
+        if in_loop:
+            opts += [("break",), ("continue",)]
+        if in_fn:
+            opts += [("return", ("int", 100 + self.tag()))]
+        if not opts:
+            return None
+        e = self.ch.choice(opts)
+        self.features.add("exit:" + e[0])
+        return e
+
+    def handler_body(self, depth, in_loop, in_fn):
+        ch = self.ch
+        out = [self.simple()]
+        k = ch.weighted([(5, "value"), (2, "reraise"), (1, "exit"),
+                         (2 if depth < self.max_depth else 0, "nested")])
+        if k == "reraise":
+            self.features.add("handler-raises")
+            out.append(self.raiser())
+        elif k == "exit":
+            e = self.exit_stmt(in_loop, in_fn)
+            if e is not None:
+                self.features.add("handler-exits")
+                out.append(e)
+        elif k == "nested":
+            out += self.block_stmt(depth + 1, in_loop, in_fn)
+        out.append(("expr", ("int", 200 + self.tag())))
+        return out
+
+    def block(self, depth, in_loop, in_fn):
+        """A ("block", ...) node."""
+        ch = self.ch
+        body = []
+        n = ch.int(1, 4)
+        fail_at = ch.int(0, n) if ch.bool(0.8) else None
+        for i in range(n):
+            if i == fail_at:
+                k = ch.weighted([(5, "raise"), (2, "exit"),
+                                 (3 if depth < self.max_depth else 0,
+                                  "nested")])
+                if k == "raise":
+                    body.append(self.raiser())
+                elif k == "exit":
+                    e = self.exit_stmt(in_loop, in_fn)
+                    body.append(e if e is not None else self.raiser())
+                    if e is not None:
+                        self.features.add("exit-inside-block")
+                else:
+                    body += self.block_stmt(depth + 1, in_loop, in_fn)
+            else:
+                body.append(self.simple())
+        body.append(("expr", ("int", 300 + self.tag())))
+        catches = []
+        for _ in range(ch.weighted([(2, 0), (4, 1), (3, 2), (1, 3)])):
+            if ch.bool(0.25):
+                catches.append((None, self.handler_body(depth, in_loop,
+                                                        in_fn)))
+                break
+            cv = self.errval()
+            if ch.bool(0.2):
+                cv = ("var", "cv1")
+            catches.append((cv, self.handler_body(depth, in_loop, in_fn)))
+        fin = None
+        if ch.bool(0.6):
+            fin = [self.simple()]
+            self.features.add("finally")
+            if ch.bool(0.12):
+                fin.append(self.raiser())
+                self.features.add("finally-raises")
+        return ("block", body, catches, fin)
+
+    def block_stmt(self, depth, in_loop, in_fn):
+        """Statements that run a block in some context and log its value."""
+        ch = self.ch
+        k = ch.weighted([(5, "plain"), (2, "loop"), (2, "fn"), (1, "value")])
+        if depth > 1:
+            self.features.add("nested-blocks")
+        if k == "plain":
+            return [("expr", ("blocke", self.block(depth, in_loop, in_fn)))]
+        if k == "value":
+            v = self.fresh("v")
+            return [("def", v, ("blocke", self.block(depth, in_loop, in_fn))),
+                    tag_log(self.tag(), ("var", v))]
+        if k == "loop":
+            i = self.fresh("i")
+            self.features.add("block-in-loop")
+            return [("for", [i], None, ("list", [("int", 1), ("int", 2)]),
+                     [tag_log(self.tag(), ("var", i)),
+                      ("expr", ("blocke", self.block(depth, True, in_fn))),
+                      self.simple()])]
+        f = self.fresh("f")
+        self.features.add("block-in-function")
+        return [("deffn", f, [],
+                 ("block", [self.simple(),
+                            ("expr", ("blocke", self.block(depth, False,
+                                                           True))),
+                            ("expr", ("int", 400 + self.tag()))], [], None)),
+                tag_log(self.tag(), call(f))]
+
+    def scenario(self):
+        out = []
+        for _ in range(self.ch.int(1, 2)):
+            out += self.block_stmt(1, False, False)
+        return out
+
+    def program(self, wrapped):
+        pre = [("def", "trace", ("list", [])),
+               ("def", "cv1", self.ch.choice(ERR_VALUES)),
+               ("deffn", "thrower", [("v", None, False)],
+                ("block", [tag_log(self.tag()), ("error", ("var", "v")),
+                           tag_log(self.tag())], [], None))]
+        sc = self.scenario()
+        return pre, sc
+
+
+def wrap_scenario(pre, sc, wrapped):
+    if not wrapped:
+        return pre + sc + [("expr", ("var", "trace"))]
+    outer = ("block", sc + [("expr", ("str", "completed"))],
+             [(None, [("expr", ("str", "escaped"))])], None)
+    return pre + [("def", "res", ("blocke", outer)),
+                  ("expr", ("list", [("var", "res"), ("var", "trace")]))]
